@@ -2,6 +2,7 @@ package engb
 
 import (
 	"crypto/sha256"
+	"fmt"
 	"runtime"
 	"sync"
 
@@ -26,6 +27,31 @@ type Explorer struct {
 	shards [64]seenShard
 	// Completed is the deepest bound fully explored.
 	Completed int
+	maxDepth  int
+
+	// ConformancePaths collects the traces to be replayed through the real block pipeline:
+	// every trace up to ConformanceDepth and a deterministic stride of the deeper ones.
+	ConformanceDepth int
+	confMu           sync.Mutex
+	ConformancePaths [][]LBlock
+}
+
+func (e *Explorer) noteTrace(p []LBlock) {
+	if e.ConformanceDepth == 0 {
+		return
+	}
+	keep := len(p) <= e.ConformanceDepth
+	if !keep {
+		h := sha256.Sum256([]byte(fmt.Sprint(p)))
+		keep = (uint32(h[0])|uint32(h[1])<<8|uint32(h[2])<<16)%4001 == 0
+	}
+	if keep {
+		e.confMu.Lock()
+		if len(e.ConformancePaths) < 5000 {
+			e.ConformancePaths = append(e.ConformancePaths, append([]LBlock{}, p...))
+		}
+		e.confMu.Unlock()
+	}
 }
 
 type seenShard struct {
@@ -82,6 +108,9 @@ func (e *Explorer) dfs(w *World, st *LState, path []LBlock, depth int) {
 		if next != nil {
 			next.Snap = res.Post
 		}
+		if e.Depth == e.maxDepth {
+			e.noteTrace(p)
+		}
 		e.Monitor(p, st, next, res)
 		if next != nil {
 			e.dfs(w, next, p, depth+1)
@@ -93,6 +122,7 @@ func (e *Explorer) dfs(w *World, st *LState, path []LBlock, depth int) {
 // is a shortest one); counters of states refer to the deepest completed iteration.
 func (e *Explorer) Explore() error {
 	max := e.Depth
+	e.maxDepth = max
 	base := e.Run.States.Load()
 	for d := 1; d <= max; d++ {
 		e.Depth = d
@@ -131,6 +161,9 @@ func (e *Explorer) exploreOnce() error {
 		e.Run.Validated.Add(1)
 		if next != nil {
 			next.Snap = res.Post
+		}
+		if e.Depth == e.maxDepth {
+			e.noteTrace([]LBlock{b})
 		}
 		e.Monitor([]LBlock{b}, root0, next, res)
 		if next == nil || e.Depth < 2 {
@@ -194,6 +227,9 @@ func (e *Explorer) exploreOnce() error {
 				p := []LBlock{first[jb.i], b2}
 				if next != nil {
 					next.Snap = res.Post
+				}
+				if e.Depth == e.maxDepth {
+					e.noteTrace(p)
 				}
 				e.Monitor(p, mid, next, res)
 				if next != nil {
